@@ -219,6 +219,14 @@ func c08System(base string) *explore.System {
 		txOp("DeleteDenom(d,A)", s(A), pnfttypes.NewMsgDeleteDenomRequest("d", A.Bech)),
 		txOp("CreateDenom(d,B)", s(B), pnfttypes.NewMsgCreateDenomRequest("d", "S3", "recreated", "", "", "", B.Bech, "")),
 	)
+	// identifiers carrying the separators of the genesis string keys and other awkward characters: whatever the chain
+	// accepts must survive the round trip (whether it should be accepted at all is C16's business)
+	ops = append(ops,
+		txOp("CreateTopic(A,a/b)", s(A), aoltypes.NewMsgCreateTopic("a/b", "slash", A.Bech)),
+		txOp("CreateTopic(A,a.b-c_D)", s(A), aoltypes.NewMsgCreateTopic("a.b-c_D", "", A.Bech)),
+		txOp("CreateDenom(d/x:y,A)", s(A), pnfttypes.NewMsgCreateDenomRequest("d/x:y", "S4", "", "", "", "", A.Bech, "")),
+		txOp("Mint(d,t/1,A)", s(A), pnfttypes.NewMsgMintPNFTRequest("d", "t/1", "", "", "", "", A.Bech, "")),
+	)
 	ops = append(ops, ctlOps("NB")...)
 	accounts := []*world.Account{A, B, W, F}
 	sys := &explore.System{
@@ -300,7 +308,6 @@ func c08BulkGenesis(e *domEnv) func(gs map[string]json.RawMessage, cdc codec.Cod
 
 func C08(t Tier) int {
 	run := report.NewRun("C08", t.Name, "model_checking", "E1+E2")
-	dl := deadline(t, 150*time.Second, 15*time.Minute)
 	depth := map[string]int{"empty": 3, "populated": 3}
 	if t.Thorough {
 		depth = map[string]int{"empty": 4, "populated": 4}
@@ -308,7 +315,7 @@ func C08(t Tier) int {
 	depth["bulk"] = 1
 	for _, base := range []string{"empty", "populated", "bulk"} {
 		sys := c08System(base)
-		RunGraph(run, sys, []explore.Bounds{{Depth: depth[base], V: 1, Deadline: dl}}, 4)
+		RunGraph(run, sys, []explore.Bounds{{Depth: depth[base], V: 1, Deadline: deadline(t, 110*time.Second, 8*time.Minute)}}, 4)
 	}
 	run.Assumptions = []string{
 		"alphabet: the valid, state-shaping subset of the AOL, DID and PNFT alphabets (transferred token, handed-over denom, deleted and re-created denom, deactivated DID, rich DID document, empty record key/value, '/' and JSON in record bytes, writer deleted and re-added)",
